@@ -46,6 +46,8 @@ def run_shard(shard, tier, seed, wd, res):
         for l, P in so.items():
             s.op(gp + ".clear_h", lit(P, f.one))
             s.op(gp + ".clear_h", lit(P))
+            for lam in G.special_lambdas(g, rng):
+                s.op(gp + ".clear_h", lit(P, lam))
             if l < (1 << 64):
                 s.op(gp + ".clear_h", lit(G.order_rl_point(g, rng, l)))
     else:
@@ -54,6 +56,7 @@ def run_shard(shard, tier, seed, wd, res):
             o1 = s.op(gp + ".clear_h", lit(P, f.one))
             s.op(gp + ".clear_h", lit(P))
             s.op(gp + ".clear_h", lit(P, f.neg(f.one)))
+            s.op(gp + ".clear_h", lit(P, rng.choice(G.special_lambdas(g, rng))))
             # additivity through the library's addition
             Qp = c.random_point(rng)
             o2 = s.op(gp + ".clear_h", lit(Qp))
